@@ -327,6 +327,33 @@ func run(e *core.Env) {
 	src, dst := ms.Nodes[0], ms.Nodes[n-1]
 	var added bool
 	var err error
+	if tp.Chance(1, 3) {
+		// The table already holds this route from an earlier announcement round, when one or two
+		// links on the way still had other labels (same routers, same hop count): the path under
+		// test is the refreshed one, with the labels the links have now.
+		stale := append([]m.SwitchHop(nil), hops...)
+		for k, c := 0, 1+tp.Intn(2); k < c; k++ {
+			i := tp.Intn(n)
+			if i < n-1 && (i == 0 || tp.Chance(1, 2)) {
+				stale[i].ForwardLabel = drawLabel(tp)
+			} else if i > 0 {
+				stale[i].ReturnLabel = drawLabel(tp)
+			}
+		}
+		if needBytes(stale) <= 255 {
+			sp := m.SwitchPath{Hops: stale}
+			sp.CalculateTotals()
+			e.Guard("panic-in-AddRoute", func() {
+				_, _ = src.Router.Table().AddRoute(m.RoutingTableEntry{
+					DstIP: dst.IP, NextHop: ms.Nodes[1].IP, Path: sp, Source: m.RouteSourceGossip, Expires: time.Now().Add(30 * time.Minute),
+				})
+			})
+			if e.Failed() {
+				e.Fail("", "")
+			}
+			e.Probe("route_refreshed_with_changed_labels")
+		}
+	}
 	if e.Guard("panic-in-AddRoute", func() {
 		added, err = src.Router.Table().AddRoute(m.RoutingTableEntry{
 			DstIP: dst.IP, NextHop: ms.Nodes[1].IP, Path: path, Source: m.RouteSourceGossip, Expires: time.Now().Add(time.Hour),
